@@ -13,11 +13,67 @@ PROPS = {
     },
 }
 
+SCHED_ASSUME = [
+    "task::Runner is the trusted boundary (threads + channel): start/wait/can_start_more/is_running carry assumed contracts over the abstract sets started/live; the counter arithmetic of their real bodies is verified separately (unit task)",
+    "Work::check_build_dirty / record_finished / create_parent_dirs are stubs in unit sched (frame contracts); their bodies are the subject of unit dirty",
+    "ASSUMED in BuildStates::get_pool: `&mut String == &str` is string equality (no vstd spec), and unyielded IterMut elements stay unmodified on early return (also in pop_queued)",
+    "HashSet<BuildId> in Work::ready_dependents is modelled by a wrapper whose iteration yields each element exactly once in arbitrary order",
+    "#builds < 2^32 and 5*#builds < 2^31 (tasks_failed is an i32), usize is 64 bit",
+    "derive(PartialEq) on BuildState/BuildId/FileId is structural equality; std::mem::replace spec; Vec length <= usize::MAX",
+    "commands terminate (Runner::wait returns); -k >= 1 (failures_left != Some(0)) is a precondition of Work::run",
+]
+PROPS["C01"] = {
+    "units": ["sched"],
+    "probes": {"sched": ["work::Work::run", "work::BuildStates::want_build", "work::Work::ready_dependents"]},
+    "level": "proof",
+    "assumptions": SCHED_ASSUME + ["'unless the manifest was regenerated and reloaded': the started set belongs to one Runner/Work; a new Work is only built after load::read (unit run, C17)"],
+}
+PROPS["C04"] = {
+    "units": ["sched"],
+    "probes": {"sched": ["work::Work::run", "work::BuildStates::pop_queued", "work::BuildStates::enqueue"]},
+    "level": "proof",
+    "assumptions": SCHED_ASSUME + ["|live| of the abstract Runner equals the real `running` counter (both change by one in start/wait); BuildStates::new's built-in pools and parse::read_pool's depth are not yet under contract"],
+}
+PROPS["C05"] = {
+    "units": ["sched"],
+    "probes": {"sched": ["work::Work::run", "work::Work::recheck_ready"]},
+    "level": "proof",
+    "assumptions": SCHED_ASSUME + ["decoding of the wait status into Termination (process_posix.rs, FFI) is not verified", "run::build / run_impl / main exit-code mapping is not yet under contract (unit run)",
+                    "liveness clause ('every wanted step not downstream of a failure is still brought up to date') is not decided"],
+}
+PROPS["C06"] = {
+    "units": ["sched"],
+    "probes": {"sched": ["work::Work::run", "work::BuildStates::want_file"]},
+    "level": "proof",
+    "assumptions": SCHED_ASSUME + ["C06(a) ASSUMED: the `BUG: no work to do` panic in Work::run is unreachable (needs the liveness invariant; woven as an explicit assume(false), listed by the assumption scan)",
+                    "cycle *reporting* text is dropped (R4); that a cycle yields Err is by the stack check, that no step of a cycle becomes Ready follows from inv1 but is not stated as a separate clause"],
+}
+
 NOT_APPLICABLE = {
     "C16": "OS-level effects (posix_spawn file actions, pipes, /bin/sh, waitpid, cross-thread output order) sit behind unsafe FFI and threads; no contract on n2's own code can express them (DESIGN.md §8)",
 }
 
 LEVEL_TEXT = {
+    "C01": {
+        "text": "Unbounded proof (Verus) over the real text of BuildStates::{set,want_build,want_file,pop_ready,pop_queued,enqueue,get_pool} and Work::{recheck_ready,ready_dependents,run}: the loop invariant of Work::run (inv1: every build in state Ready/Queued/Running/Done/Failed has all producers of its explicit, implicit and order-only inputs Done; only legal state transitions; queues hold each id once) is preserved by every statement, and the trusted effect boundary Runner::start is called only with `id not started before` and, via the state vector, only for a build whose producers are all Done. Readiness is computed from ordering_ins only (validation and discovered inputs provably play no role). Holds for every graph, state vector, -j/-k, pool set and completion order (wait() returns an arbitrary live build with an arbitrary outcome).",
+        "note": "Trusted: Runner (threads/channel) contracts, get_pool's two assumes, HashSet model, dirty-check stubs' frames, u32 ids. Not decided: that every dependent eventually starts (C06a).",
+        "design_ref": "DESIGN.md §6 C01",
+    },
+    "C04": {
+        "text": "Unbounded proof (Verus): Runner::start requires |live| < parallelism at its only call site; BuildStates::set(.., Running) is reachable only through pop_queued, whose verified contract returns the head of the first pool with depth == 0 or running < depth; per-pool running counters are proved exact (pool_inv: running == number of Running builds resolved to that pool, <= depth when depth > 0) across every transition incl. failures; enqueue returns Err iff the build's pool name matches no declared pool.",
+        "note": "Trusted: as C01; plus the abstraction |live| == Runner.running. BuildStates::new (built-in \"\" and console pools) and the parser's depth value are not yet under contract.",
+        "design_ref": "DESIGN.md §6 C04",
+    },
+    "C05": {
+        "text": "Unbounded proof (Verus): (a) a build becomes Ready only if every ordering producer is Done (Failed is not Done and is absorbing), so nothing downstream of a failure starts; (b) record_finished has precondition termination == Success, discharged at both call sites of Work::run; (c) loop invariant `failures_left == Some(k) => k >= 1`: when the budget is used up run returns at once; Work::run returns Ok(true) only if every wanted build is Done (all_settled) and no command failed.",
+        "note": "Trusted: as C01; exit-status plumbing in run.rs/main.rs and wait-status decoding not verified; liveness clause not decided.",
+        "design_ref": "DESIGN.md §6 C05",
+    },
+    "C06": {
+        "text": "Unbounded proof (Verus) of termination: every loop of the scheduler and the mutually recursive want_build/want_file carry a decreases measure (potential sum of 5-rank over all builds for Work::run and its inner loops; lexicographic (#Unknown builds, #files - stack depth, fn) for the recursion, using a pigeonhole lemma on the duplicate-free stack); validation edges start a fresh stack only after the build left Unknown. Readiness never waits for validation inputs (want_build's Ready decision is taken before they are visited).",
+        "note": "C06(a) -- the internal-error panic is unreachable / every wanted step ends up to date -- is ASSUMED (explicit assume(false) before the panic), not proved. Trusted: as C01; external commands terminate.",
+        "design_ref": "DESIGN.md §6 C06",
+    },
     "C14": {
         "text": "Unbounded proof (Verus) on the real text of Graph::add_build and BuildOuts::remove_duplicates: add_build returns Err iff some listed output already has a producing statement; on Ok the graph invariant wf_graph holds (every output of every build names exactly that build as producer, no duplicates in any output list) and the new build's outputs are the first-occurrence de-duplication of the listed ones with the explicit count = number of distinct explicit outputs. Holds for all graphs, all output lists, all multiplicities.",
         "note": "Trusted: Verus/z3; #builds,#files < 2^32; derive(PartialEq) structural; std::mem::replace spec; Vec length <= usize::MAX; message text dropped (R4) so 'citing both statements' is not checked; spelling-equivalence is C13's job (canonicalisation) and the hash-map in GraphFiles::id_from_canonical is trusted; 'nothing is run' follows from load::read returning Err before Work::new (not verified here).",
